@@ -4,6 +4,7 @@
 From PCD Require Import Base.PyBase Base.PyImp Base.Cfg Model.Flags Model.Args Model.Data Model.Consts Model.LineTable
   Model.Blocks Model.CodeData Proofs.SrcFromArgTie.
 From PCD Require Gen.SrcFromArg Gen.SrcIter.
+From Coq Require Import Lia.
 
 Section B2C.
   Context {C : Type} (keq : C -> C -> bool) (is_str : C -> bool) (none_c : C) (str_c : str -> C).
@@ -72,6 +73,7 @@ Section B2C.
     rewrite fold_step_is_add_additional.
     destruct (add_additional keq is_str none_c (filter is_const additional) bt [] st1) as [st2|e]; cbn [bind]; reflexivity.
   Qed.
+
 End B2C.
 
 Theorem iter_code_data_tie : forall d, PCD.Gen.SrcIter.iter_code_data d = iter_code_data d.
